@@ -58,6 +58,8 @@ type poolEvent struct {
 }
 
 func raceC11(out *bufio.Writer, st *Stats, r *Rng, tier string) {
+	// thousands of buffers of one pool idle at once (a bounded free list has an edge there), in this process too
+	genBulkPoolFor(&Kern{out, st}, r, tier, "C11")
 	type cfg struct{ G, M, procs int }
 	cfgs := []cfg{{2, 300, 1}, {8, 150, 4}, {16, 60, 16}}
 	if tier == "thorough" {
